@@ -14,7 +14,7 @@ RULE = ("every reference-unit type x ALL ordered unit pairs (exhaustive) x amoun
 
 
 def plan(env, tier, seed):
-    n = 6 if tier == "quick" else 80
+    n = 10 if tier == "quick" else 600
     tasks = cl.split_tasks(env, lambda ty, e: e["kind"] == "ref")
     for t in tasks:
         t.update({"n": n, "seed": seed})
